@@ -173,6 +173,13 @@ def soaHasNs (z : Spec.Zone) : Bool :=
   z.recs.all fun r => r.type ≠ 6 ∨ r.wild ∨
     z.recs.any fun r' => r'.owner = r.owner ∧ ¬ r'.wild ∧ r'.type = 2 ∧ (r'.loc = [0, 0] ∨ r'.loc = r.loc)
 
+/-- `LocIdsOK` of the location pipeline theorems (`Props/C03.lean`): no subnet and no client-subnet
+map carries the default map id `\0\0` (a classic `%lo,prefix` line without map id lands there, and
+lookups for a name without map run on that id). Such files get no Spec verdict; implementation =
+model and the pairwise agreement of the storage configurations are still checked. -/
+def locIdsOK (z : Spec.Zone) : Bool :=
+  z.subnets.all (fun s => s.mapID ≠ [0, 0]) && z.maps.all (fun m => ¬ m.ecs ∨ m.mapID ≠ [0, 0])
+
 def renderSpecRR (r : Spec.OutRR) : String :=
   s!"{Bytes.hex (Name.pack r.owner)}/{r.type}/{r.cls}/{r.ttl}/{Bytes.hex r.rdata}"
 
@@ -243,7 +250,7 @@ def serveOp (withOpt : Bool) (ls qs : String) (impl : Option String) : String ×
       | none, _ => "-"
       | some _, none => "-"
       | some _, some z =>
-        if ¬ soaHasNs z then "-" else
+        if ¬ soaHasNs z ∨ ¬ locIdsOK z then "-" else
         let bad := backends.findSome? fun (name, _) =>
           match implParts.find? (·.startsWith (name ++ ":")) with
           | none => none
